@@ -7,6 +7,8 @@
       branches of [compress] and [decompress] are never taken; the second one
       holds for every input of the decoder, well formed or not.
     - [compress_bytes]: the compressed stream of a byte string is a byte string.
+    - [hash_fast_eq] / [slot_eq]: the table based hash used by [slot] is the
+      literal [hash (batch b0 b1 b2 b3)].
     - fidelity of the fast list primitives of the model: [take_rev_spec]
       ([take_imp] + [extend_from_slice], with the failure case),
       [duplicate_is_ref] (the queue based match copy is the crate's
@@ -94,6 +96,115 @@ Proof.
   intros [|b0 [|b1 [|b2 [|b3 [|b4 tl]]]]]; cbn [remaining_batch length];
     split; intro H; try discriminate; try reflexivity; lia.
 Qed.
+
+(** ** The table based hash is the literal hash
+
+    [slot] uses [hash_fast]; it computes [hash (batch b0 b1 b2 b3)], the literal
+    transcription of [get_cur_hash], for all arguments.  (The round trip does
+    not depend on this: it holds for any hash function.) *)
+
+Lemma succ_pos_inj : forall a b, N.succ_pos a = N.succ_pos b -> a = b.
+Proof.
+  intros a b H. apply N.succ_inj. rewrite <- !N.succ_pos_spec. rewrite H. reflexivity.
+Qed.
+
+Lemma mk_table_spec : forall f n b,
+  table_get (mk_table f n) b = if b <? n then Some (f b) else None.
+Proof.
+  intros f n b. unfold table_get, mk_table.
+  set (F := fun st : N * PositiveMap.t N =>
+              let (i, m) := st in (N.succ i, PositiveMap.add (N.succ_pos i) (f i) m)).
+  assert (H : fst (N.iter n F (0, PositiveMap.empty N)) = n /\
+              PositiveMap.find (N.succ_pos b) (snd (N.iter n F (0, PositiveMap.empty N)))
+              = if b <? n then Some (f b) else None).
+  { induction n as [|n IHn] using N.peano_ind.
+    - cbn [N.iter fst snd]. split; [reflexivity|].
+      rewrite PositiveMap.gempty. destruct (N.ltb_spec b 0); [lia|reflexivity].
+    - rewrite N.iter_succ. destruct IHn as [Hi Hm].
+      destruct (N.iter n F (0, PositiveMap.empty N)) as [i m].
+      cbn [fst snd] in Hi, Hm. subst i. unfold F at 1 2. cbv beta iota. cbn [fst snd].
+      split; [reflexivity|].
+      destruct (N.eq_dec b n) as [He|Hne].
+      + subst b. rewrite PositiveMap.gss.
+        destruct (N.ltb_spec n (N.succ n)); [reflexivity|lia].
+      + rewrite PositiveMap.gso by (intro Hs; apply succ_pos_inj in Hs; contradiction).
+        rewrite Hm.
+        destruct (N.ltb_spec b n); destruct (N.ltb_spec b (N.succ n)); try reflexivity; lia. }
+  exact (proj2 H).
+Qed.
+
+Lemma mask32_mod : forall x, mask32 x = x mod 4294967296.
+Proof. intro x. unfold mask32. change 0xFFFFFFFF with (N.ones 32). apply N.land_ones. Qed.
+
+Lemma land4095_mod : forall x, N.land x 4095 = x mod 4096.
+Proof. intro x. change 4095 with (N.ones 12). apply N.land_ones. Qed.
+
+Lemma land_lxor_distr_r : forall a b c,
+  N.land (N.lxor a b) c = N.lxor (N.land a c) (N.land b c).
+Proof.
+  intros a b c. apply N.bits_inj. intro n.
+  rewrite N.land_spec, !N.lxor_spec, !N.land_spec.
+  destruct (N.testbit a n), (N.testbit b n), (N.testbit c n); reflexivity.
+Qed.
+
+Lemma add4_mod32 : forall a b c d,
+  (a mod 4294967296 + b mod 4294967296 + c mod 4294967296 + d mod 4294967296) mod 4294967296
+  = (a + b + c + d) mod 4294967296.
+Proof.
+  intros a b c d.
+  rewrite (N.add_mod (a + b + c) d), (N.add_mod (a + b) c), (N.add_mod a b) by lia.
+  rewrite (N.add_mod (a mod 4294967296 + b mod 4294967296 + c mod 4294967296)
+                     (d mod 4294967296)) by lia.
+  rewrite (N.add_mod (a mod 4294967296 + b mod 4294967296) (c mod 4294967296)) by lia.
+  rewrite !N.mod_mod by lia. reflexivity.
+Qed.
+
+Lemma first_mult : forall b0 b1 b2 b3,
+  mask32 (mask32 (b0 * hash_mult) + mask32 (256 * b1 * hash_mult)
+          + mask32 (65536 * b2 * hash_mult) + mask32 (16777216 * b3 * hash_mult))
+  = mask32 (batch b0 b1 b2 b3 * hash_mult).
+Proof.
+  intros b0 b1 b2 b3. unfold batch. rewrite !mask32_mod.
+  rewrite add4_mod32. rewrite N.mul_mod_idemp_l by lia.
+  f_equal. unfold hash_mult. lia.
+Qed.
+
+Lemma second_mult : forall x,
+  N.land (mask32 (x * hash_mult)) 4095 = N.land (N.land x 4095 * hash_mult) 4095.
+Proof.
+  intro x. rewrite mask32_mod, !land4095_mod.
+  rewrite N.mul_mod_idemp_l by lia.
+  change 4294967296 with (4096 * 1048576).
+  rewrite N.mod_mul_r by lia.
+  rewrite (N.mul_comm 4096), N.mod_add by lia.
+  apply N.mod_mod; lia.
+Qed.
+
+Theorem hash_fast_eq : forall b0 b1 b2 b3,
+  hash_fast b0 b1 b2 b3 = hash (batch b0 b1 b2 b3).
+Proof.
+  intros b0 b1 b2 b3. unfold hash_fast.
+  unfold mul_table0, mul_table1, mul_table2, mul_table3, mul_table12.
+  rewrite !mk_table_spec.
+  destruct (b0 <? 256); [|reflexivity].
+  destruct (b1 <? 256); [|reflexivity].
+  destruct (b2 <? 256); [|reflexivity].
+  destruct (b3 <? 256); [|reflexivity].
+  cbv zeta. rewrite mk_table_spec. rewrite first_mult.
+  set (x := mask32 (batch b0 b1 b2 b3 * hash_mult)).
+  rewrite (N.shiftr_shiftr x 16 14). change (16 + 14) with 30.
+  set (y := N.shiftr (N.shiftr x 16) (N.shiftr x 30)).
+  rewrite <- land_lxor_distr_r.
+  assert (Hv : N.land (N.lxor x y) 4095 < 4096).
+  { rewrite land4095_mod. apply N.mod_lt. lia. }
+  destruct (N.ltb_spec (N.land (N.lxor x y) 4095) 4096) as [_|Hge]; [|lia].
+  unfold hash. cbv zeta. fold hash_mult. fold x. fold y.
+  rewrite second_mult. reflexivity.
+Qed.
+
+Corollary slot_eq : forall b0 b1 b2 b3,
+  slot b0 b1 b2 b3 = N.succ_pos (hash (batch b0 b1 b2 b3)).
+Proof. intros. unfold slot. rewrite hash_fast_eq. reflexivity. Qed.
 
 (** ** LSIC *)
 
